@@ -336,6 +336,22 @@ def search(ctx, exe, n):
                 return
     ctx.extra['search'] = {'sequences': n, 'failures': 0}
 
+def alias_sweep():
+    """deterministic sweep of the own-element situations: a 6-element array that is full (size()==capacity(), built by the
+    range constructor) or has spare capacity, every element index i as the value argument, every position k, for push_back,
+    insert(p,value), insert(p,n,value) (n = 0, 1, 3: the last one reallocates even with the spare room used here) and resize"""
+    n = 6; seqs = []
+    base = ['S c 1', 'cl 0 %d %s' % (n, ' '.join(str(10 + j) for j in range(n)))]
+    for spare in (None, 'rsv 0 8', 'rsv 0 16'):
+        pre = base + ([spare] if spare else [])
+        for i in range(n):
+            seqs.append(pre + ['pb 0 o%d' % i, 'E'])
+            for m in (n - 2, n, n + 1, n + 3, n + 11): seqs.append(pre + ['resf 0 %d o%d' % (m, i), 'E'])
+            for k in range(n + 1):
+                seqs.append(pre + ['ins 0 %d o%d' % (k, i), 'E'])
+                for m in (0, 1, 3): seqs.append(pre + ['insn 0 %d %d o%d' % (k, m, i), 'E'])
+    return seqs
+
 def alias_part(ctx, drv, exe, nseq):
     seqs = []
     cdir = os.path.join(VERIF, 'corpus', 'C26')
@@ -343,19 +359,35 @@ def alias_part(ctx, drv, exe, nseq):
         if f.endswith('.alias'):
             seqs.append([l.strip() for l in open(os.path.join(cdir, f)) if l.strip() and not l.startswith('#')])
     nw = len(seqs)
+    sweep = alias_sweep(); seqs += sweep
     for i in range(nseq):
         seqs.append(gen_sequence(ctx.rng, 'c', 1, ctx.rng.randint(2, 25), alias=True)[0])
     text = '\n'.join('\n'.join(s) for s in seqs) + '\n'
     om, oc = run_both(ctx, text, drv, exe)
     ox, _ = sh([drv, 'exact'] + GUARD, input=text, timeout=600)[1], None
     sm = split_sequences(om); sc = split_sequences(oc); sx = split_sequences(ox)
-    stats = {'sequences': len(seqs), 'witness_files': nw, 'agree_with_model': 0, 'faults': {}, 'wrong_value': {}, 'clean': 0}
+    stats = {'sequences': len(seqs), 'witness_files': nw, 'sweep_sequences': len(sweep), 'agree_with_model': 0, 'disagree_with_model': 0,
+             'faults': {}, 'wrong_value': {}, 'clean': 0}
     for i, s in enumerate(seqs):
         a = sm[i] if i < len(sm) else None; b = sc[i] if i < len(sc) else None
         if a != b:
-            ctx.broken.append(('correspondence:array-alias', 'model and Array_ differ on a sequence with own-element arguments: %s | model=%s impl=%s' %
-                               (' ; '.join(s), a[-2:] if a else a, b[-2:] if b else b)))
-            break
+            # model and code disagree: recorded once as "no longer checks"; the property predicate is still evaluated on the
+            # implementation's own output below, so that a concrete failing input is reported whenever there is one
+            if not stats['disagree_with_model']:
+                ctx.broken.append(('correspondence:array-alias', 'model and Array_ differ on a sequence with own-element arguments: %s | model=%s impl=%s' %
+                                   (' ; '.join(s), a[-2:] if a else a, b[-2:] if b else b)))
+            stats['disagree_with_model'] += 1
+            if not b: continue
+            okp, what, at = impl_predicate(s, b)
+            if okp: continue
+            ops = [l for l in s if not l.startswith('S ') and l != 'E']
+            name = ops[at].split()[0] if 0 <= at < len(ops) else '?'
+            if stats['disagree_with_model'] <= 3 or not ctx.violations:
+                ctx.report('impl:array-alias-' + name, 'Array_ violates the property at "%s" (value argument refers to the array\'s own element): %s' %
+                           (ops[at] if 0 <= at < len(ops) else '?', what),
+                           {'failing_input': s, 'what_failed': what, 'model_output': a[-3:] if a else a, 'impl_output': b[-3:],
+                            'replay_cmd': 'printf "%s\\n" | %s' % ('\\n'.join(s), exe)})
+            continue
         stats['agree_with_model'] += 1
         okp, what, at = impl_predicate(s, b)
         if okp: stats['clean'] += 1; continue
